@@ -348,14 +348,47 @@ func (m *RWMutex) RUnlock() {
 	m.mu.RUnlock()
 }
 
-// Once, WaitGroup, Cond, Pool, Map and Locker are the native ones: the library never blocks inside them
+// WaitGroup, Cond, Map and Locker are the native ones: the library never blocks inside them
 // across a gate.
 type (
 	WaitGroup = gosync.WaitGroup
-	Pool      = gosync.Pool
 	Map       = gosync.Map
 	Locker    = gosync.Locker
 )
+
+// Pool replaces sync.Pool by a deterministic LIFO free list. That is one of the behaviours
+// sync.Pool allows (Get may return any item Put earlier, or a new one), it makes executions
+// reproducible (the native pool is per-P and emptied by the GC), and it makes aliasing through
+// a recycled object show up at the first reuse.
+type Pool struct {
+	New   func() any
+	mu    gosync.Mutex
+	items []any
+}
+
+func (p *Pool) Get() any {
+	p.mu.Lock()
+	if n := len(p.items); n > 0 {
+		x := p.items[n-1]
+		p.items = p.items[:n-1]
+		p.mu.Unlock()
+		return x
+	}
+	p.mu.Unlock()
+	if p.New != nil {
+		return p.New()
+	}
+	return nil
+}
+
+func (p *Pool) Put(x any) {
+	if x == nil {
+		return
+	}
+	p.mu.Lock()
+	p.items = append(p.items, x)
+	p.mu.Unlock()
+}
 
 // Once replaces sync.Once: under the scheduler a second caller must park at a gate (a
 // durable block) rather than on sync.Once's internal mutex while the first caller's
